@@ -416,6 +416,14 @@ func (u *Universe) SDL() string {
 			b.WriteString("}\n")
 		}
 	}
+	// the roots are named by a schema block when they are not the types called Query / Mutation
+	if qn, ok := u.Roots["query"]; ok && u.NodeType[qn] != "Query" {
+		b.WriteString("schema {\n  query: " + u.NodeType[qn] + "\n")
+		if mn, ok := u.Roots["mutation"]; ok {
+			b.WriteString("  mutation: " + u.NodeType[mn] + "\n")
+		}
+		b.WriteString("}\n")
+	}
 	return b.String()
 }
 
